@@ -416,6 +416,12 @@ func runC14(layout string, ops []c14Op, concurrent bool) (vs []Violation, stats 
 		}()
 	}
 
+	type handedOut struct {
+		ptr  *tls.Certificate
+		der  []byte
+		step int
+	}
+	var handed []handedOut
 	check := func(step int, op string) bool {
 		// the state after this step may become visible to observers at once
 		if der, ok := stateValid(); ok && !partialOn["crt"] && !partialOn["key"] {
@@ -436,6 +442,17 @@ func runC14(layout string, ops []c14Op, concurrent bool) (vs []Violation, stats 
 		if !pairMatches(c) {
 			bad("torn_pair", "after step %d %s the certificate handed to handshakes does not match its private key", step, op)
 			return false
+		}
+		// a pair that was handed to a handshake earlier must stay what it was: crypto/tls
+		// keeps the pointer for the whole handshake, a reload must not rewrite it in place
+		for _, h := range handed {
+			if len(h.ptr.Certificate) == 0 || !bytes.Equal(h.ptr.Certificate[0], h.der) || !pairMatches(h.ptr) {
+				bad("handed_out_pair_changed", "after step %d %s a certificate handed out at step %d (%s) was rewritten in place: a handshake still holding it presents a pair that never existed", step, op, h.step, nameOfDER(h.der))
+				return false
+			}
+		}
+		if c != nil && len(c.Certificate) > 0 {
+			handed = append(handed, handedOut{c, append([]byte(nil), c.Certificate[0]...), step})
 		}
 		if !bytes.Equal(got, want) {
 			if _, ok := stateValid(); ok && !partialOn["crt"] && !partialOn["key"] {
